@@ -1,6 +1,8 @@
 package c19
 
 import (
+	"crypto/sha256"
+	"encoding/binary"
 	"encoding/hex"
 	"encoding/xml"
 	"fmt"
@@ -44,7 +46,9 @@ type formDesc struct {
 
 var fieldTypes = []string{"boolean", "fixed", "hidden", "jid-multi", "jid-single", "list-multi", "list-single", "text-multi", "text-private", "text-single"}
 
-func isMulti(t string) bool { return t == "list-multi" || t == "jid-multi" || t == "text-multi" }
+func isMulti(t string) bool {
+	return t == "list-multi" || t == "jid-multi" || t == "text-multi" || t == "hidden"
+}
 func isList(t string) bool  { return t == "list-single" || t == "list-multi" }
 
 var jidTexts = []string{"a@example.net", "example.net", "not a jid@", "@", "A@EXAMPLE.NET/R", "a@example.net/r s", "", "x@y/z\n", "ß@example.net"}
@@ -590,10 +594,51 @@ func formEnum(c *ctx, script []int) []int {
 
 // formEval drives one form (description + Set operations) through every path.
 func formEval(c *ctx, vline string, fd formDesc, ops []setOp, dup, bad bool, class string) {
+	formEvalOn(c, vline, fd, ops, dup, bad, class, nil)
+}
+
+// formDecoded: a form an unmarshaller returned is a value of the type like any other (second
+// generation): it is described through the exported accessors and driven through the same
+// paths, Set / Get / Submit and the model lines as a form built by the constructors.
+func formDecoded(c *ctx, b []byte, lines []string) {
+	var d form.Data
+	if pan, err := safeUnmarshal(b, &d); pan != "" || err != nil {
+		return
+	}
+	var fd formDesc
+	attributable := false
+	if p := guard("describe", func() ([]byte, []xml.Token, error) { fd, attributable = descOf(&d); return nil, nil, nil }); p.panicked != "" {
+		c.r.Fail("no-panic", "form.Data/accessors/"+panicClass(p.panicked), lines, "the accessors of a decoded form panicked: "+p.panicked)
+		return
+	}
+	seen := map[string]bool{}
+	dup := !attributable || fd.typ == "submit" || fd.typ == "PANIC"
+	for _, f := range fd.fields {
+		if f.typ != "fixed" && seen[f.varName] {
+			dup = true
+		}
+		seen[f.varName] = true
+		known := false
+		for _, t := range fieldTypes {
+			known = known || t == f.typ
+		}
+		if !known {
+			dup = true // a field type the model does not describe: oracle only
+		}
+	}
+	h := sha256.Sum256(b)
+	g := &gen{r: common.NewRand(binary.LittleEndian.Uint64(h[:8]))}
+	ops := genOps(g, fd)
+	formEvalOn(c, strings.TrimPrefix(lines[0], c.r.Prop+" "), fd, ops, dup, false, "decoded", &d)
+}
+
+func formEvalOn(c *ctx, vline string, fd formDesc, ops []setOp, dup, bad bool, class string, pre *form.Data) {
 	r := c.r
-	r.Line(vline, "-")
 	lines := []string{r.Prop + " " + vline}
-	r.Case(vline, true, class+"/form.Data")
+	if pre == nil {
+		r.Line(vline, "-")
+		r.Case(vline, true, class+"/form.Data")
+	}
 
 	repr := xmlValid(fd.title) && xmlValid(fd.instr)
 	for _, f := range fd.fields {
@@ -609,16 +654,30 @@ func formEval(c *ctx, vline string, fd formDesc, ops []setOp, dup, bad bool, cla
 	}
 
 	var d *form.Data
-	if p := guard("build", func() ([]byte, []xml.Token, error) { d = fd.build(); return nil, nil, nil }); p.panicked != "" {
+	if pre != nil {
+		d = pre
+	} else if p := guard("build", func() ([]byte, []xml.Token, error) { d = fd.build(); return nil, nil, nil }); p.panicked != "" {
 		r.Fail("no-panic", "form.Data/construct/"+panicClass(p.panicked), lines, "form.New panicked: "+p.panicked)
 		return
 	}
 	jt := fd.jidTab()
+	before, _ := descOf(d)
 
 	// --- writer paths on the form as built
 	ps := []pathRes{
 		guard("MarshalPtr", func() ([]byte, []xml.Token, error) { b, err := xml.Marshal(d); return b, nil, err }),
 		guard("TokenReader", func() ([]byte, []xml.Token, error) { return encodeTokens(d.TokenReader()) }),
+		guard("WriteXML", func() ([]byte, []xml.Token, error) {
+			var buf strings.Builder
+			e := xml.NewEncoder(&buf)
+			if _, err := d.WriteXML(e); err != nil {
+				return nil, nil, err
+			}
+			if err := e.Flush(); err != nil {
+				return nil, nil, err
+			}
+			return []byte(buf.String()), nil, nil
+		}),
 	}
 	describe := func() string {
 		s := "form: " + fd.enc()
@@ -645,6 +704,7 @@ func formEval(c *ctx, vline string, fd formDesc, ops []setOp, dup, bad bool, cla
 			if repr {
 				r.Line(bl, common.B(balancedToks(p.toks)))
 				c.skelLine("form.Data.TokenReader", p.toks)
+				r.Line("wf "+common.EncToks(p.toks), common.B(wellFormed(p.out) == nil))
 			}
 			if !balancedToks(p.toks) {
 				r.Fail("well-formed", "form.Data/TokenReader/unbalanced", append(lines, r.Prop+" "+bl), describe())
@@ -744,6 +804,42 @@ func formEval(c *ctx, vline string, fd formDesc, ops []setOp, dup, bad bool, cla
 		if !dup && repr {
 			r.Line(fmt.Sprintf("fget %s %s %s %s", jt2, fd.enc(), opsEnc, hxOrDash(id)), encVal(v)+" "+common.B(ok))
 		}
+		// the typed getters: Get followed by a type assertion
+		var typed [5]string
+		tp := guard("GetTyped", func() ([]byte, []xml.Token, error) {
+			enc := func(x interface{}, ok bool) string {
+				if !ok {
+					return "-"
+				}
+				return encVal(x)
+			}
+			s1, ok1 := d.GetString(id)
+			s2, ok2 := d.GetStrings(id)
+			b3, ok3 := d.GetBool(id)
+			j4, ok4 := d.GetJID(id)
+			j5, ok5 := d.GetJIDs(id)
+			typed = [5]string{enc(s1, ok1), enc(s2, ok2), enc(b3, ok3), enc(j4, ok4), enc(j5, ok5)}
+			return nil, nil, nil
+		})
+		if tp.panicked != "" {
+			r.Fail("no-panic", "form.Data/GetTyped/"+panicClass(tp.panicked), lines, "a typed getter panicked: "+tp.panicked+"\n"+describe())
+			continue
+		}
+		if !dup && repr {
+			r.Line(fmt.Sprintf("fgett %s %s %s %s", jt2, fd.enc(), opsEnc, hxOrDash(id)), strings.Join(typed[:], " "))
+		}
+		nOK := 0
+		for _, tv := range typed {
+			if tv != "-" {
+				nOK++
+				if !ok || tv != encVal(v) {
+					r.Fail("set-get", "form.Data/GetTyped/differs-from-Get", lines, fmt.Sprintf("Get(%q) = %s,%v but a typed getter answers %s\n%s", id, encVal(v), ok, tv, describe()))
+				}
+			}
+		}
+		if ok && v != nil && nOK != 1 {
+			r.Fail("set-get", "form.Data/GetTyped/none-answers", lines, fmt.Sprintf("Get(%q) = %s,true but %d typed getters answer\n%s", id, encVal(v), nOK, describe()))
+		}
 		if _, was := lastSet[id]; !was && !dup {
 			for _, f := range fd.fields {
 				if f.varName == id {
@@ -771,6 +867,42 @@ func formEval(c *ctx, vline string, fd formDesc, ops []setOp, dup, bad bool, cla
 		subToks = toks
 		return b, toks, err
 	})
+	// --- history (a second call on the same value): Set, Get and Submit do not change the form
+	// as it was built or received, so a second Submit writes what the first wrote and the
+	// form itself still writes what it wrote before any of these calls
+	if sp.panicked == "" && ps[1].panicked == "" && ps[1].err == nil {
+		var sub2 []byte
+		var sub2err error
+		h := guard("TokenReader", func() ([]byte, []xml.Token, error) {
+			tr, _ := d.Submit()
+			sub2, _, sub2err = encodeTokens(tr)
+			return encodeTokens(d.TokenReader())
+		})
+		switch {
+		case h.panicked != "":
+			r.Fail("no-panic", "form.Data/second-call/"+panicClass(h.panicked), lines, "second Submit / TokenReader panicked: "+h.panicked+"\nops: "+opsEnc+"\n"+describe())
+		case h.err != nil:
+			if repr {
+				r.Fail("marshal-error", "form.Data/second-call", lines, h.err.Error()+"\n"+describe())
+			}
+		default:
+			if sp.err == nil && sub2err == nil && string(sub2) != string(sp.out) {
+				r.Fail("same-value", "form.Data/Submit/second-call", lines,
+					fmt.Sprintf("two calls of Submit on the same form write different submissions\n%q\n%q\nops: %s\n%s", sp.out, sub2, opsEnc, describe()))
+			}
+			if string(h.out) != string(ps[1].out) {
+				after, _ := descOf(d)
+				r.Fail("roundtrip", "form.Data/after-Submit/"+formDiff(before, after), lines,
+					fmt.Sprintf("the form writes something else after Set/Get/Submit than before (a reading call changed the value)\nbefore %q\nafter  %q\nops: %s\n%s", ps[1].out, h.out, opsEnc, describe()))
+			}
+			if repr && !dup {
+				if toks, err := reparse(h.out); err == nil {
+					// layer 2: the model's history (Model/Form.lean `history`) leaves the form as it was
+					r.Line(fmt.Sprintf("fhist %s %s %s", jt2, fd.enc(), opsEnc), common.EncToks(canonOrder(toks)))
+				}
+			}
+		}
+	}
 	switch {
 	case sp.panicked != "":
 		r.Fail("no-panic", "form.Data/Submit/"+panicClass(sp.panicked), lines, "Submit panicked: "+sp.panicked+"\nops: "+opsEnc+"\n"+describe())
@@ -902,6 +1034,13 @@ func zeroFormCase(c *ctx) {
 	r.Line(line, "-")
 	lines := []string{r.Prop + " " + line}
 	r.Case(line, true, "corpus/form.Data(zero)")
+	// a nil form (what pubsub.GetConfig returns for a reply without a form): Submit accepts it
+	if p := guard("Submit", func() ([]byte, []xml.Token, error) {
+		tr, _ := (*form.Data)(nil).Submit()
+		return encodeTokens(tr)
+	}); p.panicked != "" {
+		r.Fail("no-panic", "form.Data(nil)/Submit/"+panicClass(p.panicked), lines, "Submit on a nil *form.Data panicked: "+p.panicked)
+	}
 	for _, name := range []string{"Set", "Get", "Submit", "TokenReader", "Marshal", "Len", "Raw"} {
 		d := &form.Data{}
 		p := guard(name, func() ([]byte, []xml.Token, error) {
